@@ -649,6 +649,11 @@ type finding struct {
 	Expect expectation `json:"expected"`
 	Got    observation `json:"observed"`
 	Interp interp      `json:"interpretation"`
+	// History > 0: the case differs from the reference only after the History requests that precede it in the
+	// request table of its configuration were served on the same boot (Full: one-route table, complete product)
+	History int  `json:"requests_served_before,omitempty"`
+	Full    bool `json:"full_request_product,omitempty"`
+	QI      int  `json:"-"`
 }
 
 func (f finding) message() string {
@@ -656,8 +661,12 @@ func (f finding) message() string {
 	for _, s := range f.Routes {
 		rs = append(rs, s.String())
 	}
-	return fmt.Sprintf("routes (in order): %s\nrequest: %s\nexpected: status %d allow %v route %q target %q\nobserved: status %d allow %v stored %d route %q target %q residue %d",
-		strings.Join(rs, " ; "), f.Req, f.Expect.Status, f.Expect.Allow, f.Expect.Route, f.Expect.Target,
+	hist := ""
+	if f.History > 0 {
+		hist = fmt.Sprintf("   (not as the only request after boot: after the %d requests that precede it in the request table, same boot)", f.History)
+	}
+	return fmt.Sprintf("routes (in order): %s\nrequest: %s%s\nexpected: status %d allow %v route %q target %q\nobserved: status %d allow %v stored %d route %q target %q residue %d",
+		strings.Join(rs, " ; "), f.Req, hist, f.Expect.Status, f.Expect.Allow, f.Expect.Route, f.Expect.Target,
 		f.Got.Status, f.Got.Allow, f.Got.Stored, f.Got.Route, f.Got.Target, f.Got.Residue)
 }
 
@@ -673,6 +682,40 @@ func runOne(routes []routeSpec, q reqSpec, m *memo, slot int) (bool, expectation
 		return false, expectation{}, o, err
 	}
 	e := expect(routes, q, m)
+	return !sameOutcome(e, o), e, o, nil
+}
+
+// tableDims: the request dimensions of a configuration's request table (runConfig).
+func tableDims(routes []routeSpec, full bool) int {
+	if full {
+		return dimAll
+	}
+	dims := 0
+	for _, s := range routes {
+		dims |= dimsOfMatch(s.Match)
+	}
+	return dims
+}
+
+// runAfter boots the configuration, serves the history requests that precede position qi in its request table
+// (in table order) and then request qi; it reports whether that last response differs from the reference.
+func runAfter(routes []routeSpec, full bool, qi, history int, m *memo, slot int) (bool, expectation, observation, error) {
+	table := requestsFor(tableDims(routes, full))
+	if qi < 0 || qi >= len(table) || history < 0 || history > qi {
+		return false, expectation{}, observation{}, fmt.Errorf("request table position %d / history %d out of range (%d requests)", qi, history, len(table))
+	}
+	b, err := boot(configDSL(routes, bootSeq.Add(1)), slot)
+	if err != nil {
+		return false, expectation{}, observation{}, err
+	}
+	defer b.a.Shutdown()
+	var o observation
+	for _, q := range table[qi-history : qi+1] {
+		if o, err = b.serve(q, q.raw()); err != nil {
+			return false, expectation{}, o, err
+		}
+	}
+	e := expect(routes, table[qi], m)
 	return !sameOutcome(e, o), e, o, nil
 }
 
@@ -793,6 +836,17 @@ func TestCheck(t *testing.T) {
 
 	// named matcher composition family (compose_test.go)
 	if !runCompose(r) {
+		r.Finish()
+		return
+	}
+	// peer address family: the connection's peer address x request headers that name an address (peers_test.go)
+	if !runPeerFamily(r, ip, deadline) {
+		r.Finish()
+		return
+	}
+	// criteria sequence family: every ordered pair of consecutive requests over the dimensions that header / query /
+	// remote_ip / host criteria observe, on overlapping routes (seqfam_test.go)
+	if !runSeqFamily(r, ref, deadline) {
 		r.Finish()
 		return
 	}
@@ -967,7 +1021,18 @@ func TestCheck(t *testing.T) {
 	sort.Strings(keys)
 	for _, k := range keys {
 		f := finds[k]
+		// the request alone on a fresh boot, else after the requests served before it on that boot: the property
+		// gives every request its outcome from the configuration and the request alone, so an outcome that an
+		// earlier request changed is a violation of its own class
+		if bad, _, _, err := runOne(f.Routes, f.Req, ref, 902); (err != nil || !bad) && f.QI > 0 {
+			f.History = f.QI
+			k = "after-history:" + k
+		}
 		r.Violation(k, f.message(), f, func() bool {
+			if f.History > 0 {
+				bad, _, _, err := runAfter(f.Routes, f.Full, f.QI, f.History, ref, 902)
+				return err == nil && bad
+			}
 			bad, _, _, err := runOne(f.Routes, f.Req, ref, 902)
 			return err == nil && bad
 		})
@@ -1006,6 +1071,16 @@ func TestCheck(t *testing.T) {
 		"thorough adds label(i)>label(j)>reload for all i != j, append-pull>label(i)>reload, append-deliver>label(0)>reload, unlabel>reload, and on the 1..2-route lists EVERY sequence of 2 operations over the whole alphabet. "+
 		"The request table of the main family (path(10) x method(POST, GET; PUT when a route has a method criterion), other dimensions when a matcher observes them) is served after boot and after EVERY operation; reference: the main resolver on the route list in the "+
 		"order the harness wrote it, appended routes behind it once the gateway has answered that the reload / mutation was applied (the gateway's answer decides only that; the rewritten file is never read for expectations). "+
+		"peer address family: route /a with remote_ip list in {10.0.0.0/8; 2001:db8::/32; 127.0.0.0/8; 203.0.113.7; 10.0.0.0/8+2001:db8::/32} (thorough: plus ::1; 192.168.0.0/16; 127.0.0.0/8+::1), alone and in front of an open catch-all /; "+
+		"requests POST and GET /a from 17 peer addresses (loopback v4 / other 127/8 / ::1 / v4-mapped loopback, 10/8 plain and mapped, 192.168, 172.16, link-local v4 and v6, unique-local v6, the listed single address and its neighbour, "+
+		"2001:db8::1 and 2001:db9::1, a public address, an unparsable peer), each without and with ONE address-naming header out of 18 (X-Forwarded-For in two spellings, X-Real-IP, Forwarded (RFC 7239 syntax), True-Client-IP, CF-Connecting-IP, "+
+		"X-Client-IP, Client-IP, X-Cluster-Client-IP, Fastly-Client-IP, X-Original-Forwarded-For, X-Forwarded, Forwarded-For, X-Envoy-External-Address, X-Appengine-User-IP, X-Remote-Addr, X-Remote-IP, Remote-Addr) whose value names an address "+
+		"inside each listed prefix / outside every list / loopback (thorough: ::1 too), alone, first of a list, last of a list, with a port (thorough: first / last of two header lines); reference: bit-wise prefix comparison on the hand-written peer octets, headers never looked at. "+
+		"criteria sequence family: two bare routes on (/a/b, /a) and (/a, /a/b) (thorough: and (/a, /)) x all 13 match shapes on the first x all 13 on the second; on one boot a pairWalk through path{/a/b, /a (thorough: /x)} x method{POST, GET, PUT when listed} x "+
+		"every dimension a matcher of the configuration observes (quick: host{h1, x.d, d}, header{absent, X:1, X:2}, query{-, q=1, q=2}, remote{10.1.2.3, 192.168.0.1, 2001:db8::1}; thorough: the complete header / query / remote alphabets of the main family), "+
+		"so that every ordered pair of requests occurs as consecutive requests; every response compared with the stateless main reference. "+
+		"Every family that serves several requests on one boot re-checks a mismatch as the only request after a fresh boot and, when it does not reproduce, after the requests that preceded it on that boot; "+
+		"such a case is reported under its own key (after-history: / history-after-requests: / peerfam-after-history: / seqfam:after-one-request:). "+
 		"distinct_nontrivial counts (match shape, observed request value, reference verdict) classes, (route path, request path, verdict) classes and "+
 		"(channel tuple, winner position, status) classes reached by the reference")
 	r.Assume("main family: encoded slashes (%2F) and other percent-encoded path bytes are not in its alphabet; the request path spelling family sends them under a measured reading (see there)")
@@ -1019,6 +1094,10 @@ func TestCheck(t *testing.T) {
 	r.Assume("process history family: whether a reload or a management mutation is applied or refused is taken from the gateway's own answer (Reload result / Admin API \"applied\"), not demanded " +
 		"(restart-required rules belong to other properties); demanded is the resolution for that answer. Requests are served between operations, never during one (reload/request interleavings: C18; " +
 		"unsynchronised sharing: the -race side pass, which reloads while requests are in flight). MCP management tools and `config fmt` reach the same Format path but are not driven here")
+	r.Assume("peer address family: the remote address of a request is the connection's peer address as net/http reports it in RemoteAddr (DESIGN.md: match.remote_ip matches the source IP from connection RemoteAddr); " +
+		"no documented option makes a request header authoritative for it, so no header may move a request into or out of a remote_ip criterion; one address-naming header per request, PROXY protocol is not in the alphabet")
+	r.Assume("criteria sequence family: sequences of header / query / remote / host / method / path values to the depth of all ordered pairs of consecutive requests on two-route configurations; state that needs three or more " +
+		"particular requests, or three or more routes, to show is not enumerated")
 	r.Assume("405 needs an inbound route whose criteria other than the method all hold; Allow is compared as a set with the union of the methods of those routes (POST when none)")
 	r.Finish()
 }
@@ -1111,7 +1190,7 @@ func runConfig(sh *shard, j job, m *memo, slot int) {
 			continue
 		}
 		sh.finds[key] = finding{Key: key, Rank: rank, Routes: j.routes, Config: dsl, Req: q, ReqRaw: raw,
-			Remote: reqRemotes[q.Remote], Expect: e, Got: o, Interp: m.ip}
+			Remote: reqRemotes[q.Remote], Expect: e, Got: o, Interp: m.ip, QI: qi, Full: j.full}
 	}
 }
 
@@ -1200,14 +1279,16 @@ func replay(r *runner.Run, path string, m *memo) {
 		r.Infra("replay: %v", err)
 		return
 	}
-	if replayCompose(r, b) || replayHistory(r, b, m) || replayPaths(r, b) || replayHosts(r, b) || replayOverlap(r, b, m.ip) || replayMethods(r, b, m.ip) {
+	if replayCompose(r, b) || replayHistory(r, b, m) || replayPaths(r, b) || replayHosts(r, b) || replayOverlap(r, b, m.ip) || replayMethods(r, b, m.ip) || replayPeers(r, b, m.ip) || replaySeq(r, b, m) {
 		return
 	}
 	var doc struct {
 		Key    string `json:"key"`
 		Replay struct {
-			Routes []routeSpec `json:"routes"`
-			Req    reqSpec     `json:"request"`
+			Routes  []routeSpec `json:"routes"`
+			Req     reqSpec     `json:"request"`
+			History int         `json:"requests_served_before"`
+			Full    bool        `json:"full_request_product"`
 		} `json:"replay"`
 	}
 	dec := json.NewDecoder(bytes.NewReader(b))
@@ -1216,6 +1297,15 @@ func replay(r *runner.Run, path string, m *memo) {
 		return
 	}
 	bad, e, o, err := runOne(doc.Replay.Routes, doc.Replay.Req, m, 903)
+	if doc.Replay.History > 0 {
+		qi := -1
+		for i, q := range requestsFor(tableDims(doc.Replay.Routes, doc.Replay.Full)) {
+			if q == doc.Replay.Req {
+				qi = i
+			}
+		}
+		bad, e, o, err = runAfter(doc.Replay.Routes, doc.Replay.Full, qi, doc.Replay.History, m, 903)
+	}
 	if err != nil {
 		r.Infra("replay: %v", err)
 		return
@@ -1228,9 +1318,9 @@ func replay(r *runner.Run, path string, m *memo) {
 	r.Set("rule", "replay of one recorded case")
 	if bad {
 		f := finding{Routes: doc.Replay.Routes, Config: configDSL(doc.Replay.Routes, 0), Req: doc.Replay.Req, ReqRaw: doc.Replay.Req.raw(),
-			Remote: reqRemotes[doc.Replay.Req.Remote], Expect: e, Got: o, Interp: m.ip}
+			Remote: reqRemotes[doc.Replay.Req.Remote], Expect: e, Got: o, Interp: m.ip, History: doc.Replay.History, Full: doc.Replay.Full}
 		key := doc.Key
-		if c := candidates(doc.Replay.Routes, doc.Replay.Req, m, e, o); len(c) == 1 || key == "" {
+		if c := candidates(doc.Replay.Routes, doc.Replay.Req, m, e, o); (len(c) == 1 && doc.Replay.History == 0) || key == "" {
 			key = c[0]
 		}
 		r.Violation(key, f.message(), f, nil)
